@@ -447,6 +447,53 @@ def run(only=None):
         s.exhaustive = res.exhausted or depth is not None
         s.done()
         rep.bounds[name] = {"depth_completed": res.depth_completed, "fixpoint": res.exhausted, "states": res.states}
+    # ---- scale: far more records than any bounded search creates -----------------------------------------------
+    if not only or "many_records" in only:
+        s = rep.sub("many_records",
+                    "one linear history: 1300 distinct incoming addresses looked up with auto-creation (every third with an identifying patch, the "
+                    "others left unidentified), then every address looked up again: the same object as the first time, 1300 records, 1300 distinct "
+                    "ids, match_uuid finds each, a patch on the last record changes no other record")
+        SEAMS.uid = 0
+        st = RepeaterStorage()
+        first = {}
+        n_addr = 1300
+        addrs = [(f"10.{i // 250}.{i % 250}.7", 50000 + (i % 3)) for i in range(n_addr)]
+        try:
+            for i, a_ in enumerate(addrs):
+                r_ = st.match_incoming(a_, auto_create=True, patch=({"dmr_id": 1000 + i, "callsign": f"R{i}"} if i % 3 == 0 else {}))
+                first[a_] = r_
+                if r_ is None or r_.address_in != a_:
+                    s.violation("many_records:created_record_has_wrong_address", {"index": i, "address": list(a_)})
+                    break
+            if len(st) != n_addr:
+                s.violation("many_records:storage_size_differs_from_the_number_of_addresses_seen", {"len": len(st), "addresses": n_addr},
+                            "after auto-creating lookups of n distinct addresses the storage does not hold n records")
+            ids = set()
+            lost = changed = 0
+            for i, a_ in enumerate(addrs):
+                r_ = st.match_incoming(a_)
+                if r_ is None:
+                    lost += 1
+                elif r_ is not first[a_]:
+                    changed += 1
+                else:
+                    ids.add(r_.id)
+                    if st.match_uuid(r_.id) is not r_:
+                        s.violation("many_records:match_uuid_returns_other_record", {"index": i})
+                s.case(nontrivial=True, calls=2, outcome="again", sample={"address": list(a_)} if i == 0 else None)
+            if lost or changed:
+                s.violation("many_records:earlier_address_no_longer_returns_its_record", {"lost": lost, "other_object": changed, "of": n_addr},
+                            "a seen address does not return the object of its first lookup once many other addresses were seen")
+            if len(ids) != n_addr - lost - changed:
+                s.violation("many_records:duplicate_record_id", {"distinct_ids": len(ids)})
+            snap_ = {a_: (r_.callsign, r_.dmr_id, r_.attr("custom")) for a_, r_ in first.items()}
+            st.match_incoming(addrs[-1], patch={"callsign": "LAST", "custom": 9})
+            others = [a_ for a_, r_ in first.items() if a_ != addrs[-1] and (r_.callsign, r_.dmr_id, r_.attr("custom")) != snap_[a_]]
+            if others:
+                s.violation("many_records:other_record_changed", {"changed": len(others)})
+        except Exception as e:  # noqa: BLE001
+            s.violation("many_records:exception:" + exc_sig(e), {"records_so_far": len(first)}, repr(e))
+        s.done()
     return rep.finish()
 
 
